@@ -6,9 +6,9 @@ package main
 
 import (
 	"fmt"
-	"os"
 	"go/token"
 	"go/types"
+	"os"
 	"sort"
 	"strings"
 
@@ -18,71 +18,71 @@ import (
 // external callees that cannot panic for the arguments this code base gives
 // them (one line of reason each).  A callee not listed is an open obligation.
 var noPanicAllow = map[string]string{
-	"fmt.Sprintf":                          "formats any operands; operands are basic values, strings, errors",
-	"fmt.Sprint":                           "formats any operands",
-	"errors.New":                           "allocates an error",
-	"context.Background":                   "returns the empty context",
-	"context.TODO":                         "returns the empty context",
-	"log/slog.Default":                     "returns the default logger",
-	"log/slog.Debug":                       "logging; malformed key/value lists are reported as !BADKEY, not by panicking",
-	"log/slog.Info":                        "logging",
-	"log/slog.Warn":                        "logging",
-	"log/slog.Error":                       "logging",
-	"fmt.Errorf":                           "formats any operands (panics of operand methods are recovered by fmt)",
-	"fmt.Sprintln":                         "formats any operands",
-	"errors.Is":                            "walks the error chain",
-	"errors.Unwrap":                        "pure",
-	"strings.HasPrefix":                    "pure",
-	"strings.HasSuffix":                    "pure",
-	"strings.TrimSpace":                    "pure",
-	"strings.ToLower":                      "pure",
-	"strings.ToUpper":                      "pure",
-	"strings.Join":                         "pure",
-	"strings.Split":                        "pure",
-	"strings.Fields":                       "pure",
-	"strings.Index":                        "pure",
-	"(*strings.Builder).WriteString":       "appends to a buffer",
-	"(*strings.Builder).WriteByte":         "appends to a buffer",
-	"(*strings.Builder).String":            "pure",
-	"strconv.Itoa":                         "pure",
-	"strconv.Quote":                        "pure",
-	"(time.Time).Sub":                      "pure arithmetic on a value",
-	"(time.Time).Before":                   "pure",
-	"(time.Time).After":                    "pure",
-	"(time.Time).Equal":                    "pure",
-	"(time.Time).Weekday":                  "pure",
-	"(time.Time).Year":                     "pure",
-	"(time.Time).Month":                    "pure",
-	"(time.Time).Day":                      "pure",
-	"(time.Time).Date":                     "pure",
-	"(time.Time).UTC":                      "pure",
-	"(time.Time).Unix":                     "pure",
-	"(time.Time).UnixMilli":                "pure",
-	"(time.Duration).Seconds":              "pure",
-	"(time.Duration).String":               "pure",
-	"math.Abs":                             "pure",
-	"math.Floor":                           "pure",
-	"math.Round":                           "pure",
-	"math.Pow":                             "pure",
-	"math.Ldexp":                           "pure",
-	"encoding/hex.Dump":                    "pure function of a byte slice",
-	"strings.Replace":                      "pure",
-	"strings.ReplaceAll":                   "pure",
-	"strings.Contains":                     "pure",
-	"(time.Time).Add":                      "pure arithmetic on a value",
-	"(time.Time).AddDate":                  "pure arithmetic on a value",
-	"(time.Time).Format":                   "pure; layout is a constant",
-	"(time.Time).In":                       "panics only on a nil Location; LocationUTC is set in init",
-	"(time.Duration).Milliseconds":         "pure",
+	"fmt.Sprintf":                    "formats any operands; operands are basic values, strings, errors",
+	"fmt.Sprint":                     "formats any operands",
+	"errors.New":                     "allocates an error",
+	"context.Background":             "returns the empty context",
+	"context.TODO":                   "returns the empty context",
+	"log/slog.Default":               "returns the default logger",
+	"log/slog.Debug":                 "logging; malformed key/value lists are reported as !BADKEY, not by panicking",
+	"log/slog.Info":                  "logging",
+	"log/slog.Warn":                  "logging",
+	"log/slog.Error":                 "logging",
+	"fmt.Errorf":                     "formats any operands (panics of operand methods are recovered by fmt)",
+	"fmt.Sprintln":                   "formats any operands",
+	"errors.Is":                      "walks the error chain",
+	"errors.Unwrap":                  "pure",
+	"strings.HasPrefix":              "pure",
+	"strings.HasSuffix":              "pure",
+	"strings.TrimSpace":              "pure",
+	"strings.ToLower":                "pure",
+	"strings.ToUpper":                "pure",
+	"strings.Join":                   "pure",
+	"strings.Split":                  "pure",
+	"strings.Fields":                 "pure",
+	"strings.Index":                  "pure",
+	"(*strings.Builder).WriteString": "appends to a buffer",
+	"(*strings.Builder).WriteByte":   "appends to a buffer",
+	"(*strings.Builder).String":      "pure",
+	"strconv.Itoa":                   "pure",
+	"strconv.Quote":                  "pure",
+	"(time.Time).Sub":                "pure arithmetic on a value",
+	"(time.Time).Before":             "pure",
+	"(time.Time).After":              "pure",
+	"(time.Time).Equal":              "pure",
+	"(time.Time).Weekday":            "pure",
+	"(time.Time).Year":               "pure",
+	"(time.Time).Month":              "pure",
+	"(time.Time).Day":                "pure",
+	"(time.Time).Date":               "pure",
+	"(time.Time).UTC":                "pure",
+	"(time.Time).Unix":               "pure",
+	"(time.Time).UnixMilli":          "pure",
+	"(time.Duration).Seconds":        "pure",
+	"(time.Duration).String":         "pure",
+	"math.Abs":                       "pure",
+	"math.Floor":                     "pure",
+	"math.Round":                     "pure",
+	"math.Pow":                       "pure",
+	"math.Ldexp":                     "pure",
+	"encoding/hex.Dump":              "pure function of a byte slice",
+	"strings.Replace":                "pure",
+	"strings.ReplaceAll":             "pure",
+	"strings.Contains":               "pure",
+	"(time.Time).Add":                "pure arithmetic on a value",
+	"(time.Time).AddDate":            "pure arithmetic on a value",
+	"(time.Time).Format":             "pure; layout is a constant",
+	"(time.Time).In":                 "panics only on a nil Location; LocationUTC is set in init",
+	"(time.Duration).Milliseconds":   "pure",
 	"github.com/goblimey/go-crc24q/crc24q.Hash":   "table-driven loop over the slice",
 	"github.com/goblimey/go-crc24q/crc24q.HiByte": "shift and mask",
 	"github.com/goblimey/go-crc24q/crc24q.MiByte": "shift and mask",
 	"github.com/goblimey/go-crc24q/crc24q.LoByte": "shift and mask",
-	"sort.Ints":                            "pure",
-	"(*sync.RWMutex).Lock":                 "lock",
-	"(*sync.RWMutex).Unlock":               "unlock after lock (C18)",
-	"(*sync.RWMutex).RLock":                "lock",
-	"(*sync.RWMutex).RUnlock":              "unlock after lock (C18)",
+	"sort.Ints":               "pure",
+	"(*sync.RWMutex).Lock":    "lock",
+	"(*sync.RWMutex).Unlock":  "unlock after lock (C18)",
+	"(*sync.RWMutex).RLock":   "lock",
+	"(*sync.RWMutex).RUnlock": "unlock after lock (C18)",
 }
 
 // noPanicPackages: standard-library packages whose functions and methods do not
@@ -97,19 +97,19 @@ var noPanicPackages = map[string]bool{
 }
 
 var panicProne = map[string]string{
-	"strings.Repeat":            "negative count / overflow",
-	"time.Date":                 "nil *Location",
-	"(time.Time).In":            "nil *Location",
-	"time.NewTicker":            "non-positive interval",
-	"time.Tick":                 "leaks; negative interval returns nil",
-	"(*time.Ticker).Reset":      "non-positive interval",
-	"(*strings.Builder).Grow":   "negative count",
+	"strings.Repeat":               "negative count / overflow",
+	"time.Date":                    "nil *Location",
+	"(time.Time).In":               "nil *Location",
+	"time.NewTicker":               "non-positive interval",
+	"time.Tick":                    "leaks; negative interval returns nil",
+	"(*time.Ticker).Reset":         "non-positive interval",
+	"(*strings.Builder).Grow":      "negative count",
 	"(*strings.Reader).UnreadByte": "misuse returns error, listed for review",
-	"strconv.FormatInt":         "base out of range",
-	"strconv.FormatUint":        "base out of range",
-	"strconv.AppendInt":         "base out of range",
-	"sort.Slice":                "non-slice argument",
-	"sort.SliceStable":          "non-slice argument",
+	"strconv.FormatInt":            "base out of range",
+	"strconv.FormatUint":           "base out of range",
+	"strconv.AppendInt":            "base out of range",
+	"sort.Slice":                   "non-slice argument",
+	"sort.SliceStable":             "non-slice argument",
 }
 
 func pkgNoPanic(callee *ssa.Function, full string) bool {
@@ -123,14 +123,14 @@ func pkgNoPanic(callee *ssa.Function, full string) bool {
 }
 
 type boundsRun struct {
-	c      *Ctx
-	P      *Prog
-	A      *Aff
-	rule   string
-	reach  map[*ssa.Function]bool
-	roots  []*ssa.Function
-	fns    []*ssa.Function
-	loadRep map[string]ssa.Value
+	c           *Ctx
+	P           *Prog
+	A           *Aff
+	rule        string
+	reach       map[*ssa.Function]bool
+	roots       []*ssa.Function
+	fns         []*ssa.Function
+	loadRep     map[string]ssa.Value
 	stableField map[*types.Var]bool
 	fieldNonNil map[*types.Var]int // 0 unknown, 1 yes, 2 no
 	derefParams map[*ssa.Function]map[int]bool
@@ -342,9 +342,18 @@ func (b *boundsRun) isStableField(f *types.Var) bool {
 	return stable
 }
 
-func (b *boundsRun) ok(kind, key string, pos token.Pos, how string)      { b.stats[kind+":ok"]++; b.c.OK(b.rule, key, pos, how) }
-func (b *boundsRun) trivial(kind, key string, pos token.Pos, how string) { b.stats[kind+":trivial"]++; b.c.Trivial(b.rule, key, pos, how) }
-func (b *boundsRun) fail(kind, key string, pos token.Pos, k, msg string) { b.stats[kind+":open"]++; b.c.Fail(b.rule, key, pos, k, msg) }
+func (b *boundsRun) ok(kind, key string, pos token.Pos, how string) {
+	b.stats[kind+":ok"]++
+	b.c.OK(b.rule, key, pos, how)
+}
+func (b *boundsRun) trivial(kind, key string, pos token.Pos, how string) {
+	b.stats[kind+":trivial"]++
+	b.c.Trivial(b.rule, key, pos, how)
+}
+func (b *boundsRun) fail(kind, key string, pos token.Pos, k, msg string) {
+	b.stats[kind+":open"]++
+	b.c.Fail(b.rule, key, pos, k, msg)
+}
 
 func (b *boundsRun) fnName(fn *ssa.Function) string { return b.P.FnKey(fn) }
 
@@ -1158,7 +1167,6 @@ func (b *boundsRun) installRequires() {
 	}
 	b.c.Lemmas = append(b.c.Lemmas, "L-bitread: GetBitsAsUint64/Int64(buff,pos,len) are safe when pos+len <= 8*len(buff) (len>=1 for the signed reader): assumed at their entry, under which their own index obligations are discharged, and proved at every call site")
 }
-
 
 // equateElem: two loads of X[i] (same slice value after equate, same index
 // value) in one function denote the same value when the function stores to
